@@ -35,6 +35,7 @@ ASSUMPTIONS = ['default configuration (enforce_new_defaults on); no scope '
 
 ROLES = ('a', 'b', 'c', 'd', 'z')
 SUBSETS = [[r for i, r in enumerate(ROLES) if m >> i & 1] for m in range(32)]
+SUBSETS += [['d-\u00e9-\U0001f680'], ['a', 'd-\u00e9-\U0001f680']]
 TARGETS = ({'k': 'x'}, {'k': 'y'})
 ADMIN = (False, True)     # is_admin paired with the target of same index
 BOUNDS = {'quick': dict(entries=2), 'thorough': dict(entries=3)}
@@ -81,11 +82,11 @@ def default_set(P, kind):
 KINDS = ('plain', 'renamed', 'split', 'changed', 'mix')
 VALUE_KINDS = ('default', 'variant', 'different', 'dquote', 'allow', 'deny',
                'empty', 'list1', 'list2', 'list0', 'alias', 'casevariant',
-               'aliasprefix', 'aliaslist', 'aliasspaced')
+               'aliasprefix', 'aliaslist', 'aliasspaced', 'astral')
 QUICK_VARIANT_KINDS = ('default', 'different', 'empty', 'list1', 'alias',
                        'aliaslist')
 TEXT_KINDS = ('default', 'variant', 'different', 'allow', 'deny', 'empty',
-              'casevariant')
+              'casevariant', 'astral')
 
 
 def value(vk, name, defaults, successors):
@@ -122,6 +123,10 @@ def value(vk, name, defaults, successors):
         return []
     if vk == 'alias':
         return 'rule:%s' % successors[name][0] if name in successors else None
+    if vk == 'astral':
+        # a role name with characters outside the ASCII range and outside
+        # the Basic Multilingual Plane
+        return 'role:d-\u00e9-\U0001f680'
     if vk == 'aliaslist':
         # the alias written in the list-of-lists syntax
         return [['rule:%s' % successors[name][0]]] \
